@@ -137,7 +137,9 @@ func newWorld() (*world, error) {
 		HandleInvite: func(i muc.Invitation) {
 			w.mu.Lock()
 			n := -1
-			fmt.Sscanf(i.Reason, "inv-%d", &n)
+			if _, err := fmt.Sscanf(i.Reason, "inv-%d", &n); err != nil {
+				fmt.Sscanf(i.Password, "inv-%d", &n)
+			}
 			w.cbInv = append(w.cbInv, n)
 			w.mu.Unlock()
 		},
@@ -723,9 +725,15 @@ func (w *world) deliverInvite(v int) bool {
 	if v&4 == 4 {
 		body = `<body>You have been invited</body>`
 	}
+	id := fmt.Sprintf("inv-%d", i)
+	reason := `<reason>` + id + `</reason>`
+	if v&8 == 8 {
+		// no reason: the invitation is identified by its password
+		reason, extra = `<continue thread="t1"/>`, `<password>`+id+`</password>`
+	}
 	s := `<message from="room1@muc.example" to="` + me + `"` + typ + `>` + body +
-		`<x xmlns="http://jabber.org/protocol/muc#user"><invite from="inviter@example.org/x"><reason>` +
-		fmt.Sprintf("inv-%d", i) + `</reason></invite>` + extra + `</x></message>`
+		`<x xmlns="http://jabber.org/protocol/muc#user"><invite from="inviter@example.org/x">` +
+		reason + `</invite>` + extra + `</x></message>`
 	if w.sendRaw(s) {
 		w.finishIter()
 	}
